@@ -450,16 +450,16 @@ def _plans(tier, rng):
                 {"trees": "all", "reported": 3}, "one output order per output set (costs do not depend on the output order)"))
     out.append(("Net(3,3,2) complete x all 3 trees + reported costs", list(scope.networks(3, 3, 2)), True,
                 {"trees": "all", "reported": 3}, "all 4106 networks (every output order)"))
-    out.append(("Net(3,3,3) sample x all 3 trees", scope.sample_networks(3, 3, 3, 6000 if q else 60000, rng), False,
+    out.append(("Net(3,3,3) sample x all 3 trees", scope.sample_networks(3, 3, 3, 6000 if q else 120000, rng), False,
                 {"trees": "all", "reported": 1}, "seeded sample of 152423"))
-    out.append(("Net(4,4,2) sample x all 15 trees + reported costs", scope.sample_networks(4, 4, 2, 4000 if q else 40000, rng), False,
+    out.append(("Net(4,4,2) sample x all 15 trees + reported costs", scope.sample_networks(4, 4, 2, 4000 if q else 80000, rng), False,
                 {"trees": "all", "reported": 3}, "seeded sample of 318811"))
-    out.append(("Net(5,5,3) sample x all 105 trees", scope.sample_networks(5, 5, 3, 500 if q else 5000, rng), False,
+    out.append(("Net(5,5,3) sample x all 105 trees", scope.sample_networks(5, 5, 3, 500 if q else 12000, rng), False,
                 {"trees": "all", "reported": 2}, "seeded sample"))
     out.append(("Net(6..8,6,3) sample x 40 random trees + reported costs",
-                [scope.sample_networks(rng.randint(6, 8), 6, 3, 1, rng)[0] for _ in range(900 if q else 10000)], False,
+                [scope.sample_networks(rng.randint(6, 8), 6, 3, 1, rng)[0] for _ in range(900 if q else 25000)], False,
                 {"trees": 40, "reported": 3}, "seeded sample"))
-    out.append(("networks with an index on every tensor (2-6 tensors) x <= 15 trees + reported costs", batch_networks(1500 if q else 15000, rng), False,
+    out.append(("networks with an index on every tensor (2-6 tensors) x <= 15 trees + reported costs", batch_networks(1500 if q else 40000, rng), False,
                 {"trees": 15, "reported": 3}, "seeded sample; the simplify_batch case of the reported-flops claim"))
     return out
 
